@@ -552,7 +552,7 @@ impl Prop for C17 {
     }
     fn runs(&self, tier: Tier) -> u64 {
         match tier {
-            Tier::Quick => 2_000,
+            Tier::Quick => 6_000,
             Tier::Thorough => 30_000,
         }
     }
